@@ -173,8 +173,9 @@ def wrap_history(ms, act, cmax, loans, answer, probe_first):
     channels = ms * 2 * cmax + loans
     ops = [f"new local 1 {ms} {act} 1 1 0 0 0 {loans} 1 1", "cserver 0 -", f"cclient 0 {'-' if cmax == act else cmax}",
            "send 0 0 1", "recvreq 0 0", "dpending 0 0"]
+    drain = act >= 2          # with max active requests 1 the server cannot receive while it holds the first request
     for r in range(1, channels):
-        ops += [f"send 0 {r} {r + 1}", f"dpending 0 {r}"]
+        ops += [f"send 0 {r} {r + 1}"] + ([f"recvreq 0 {r}", f"dactive 0 {r}"] if drain else []) + [f"dpending 0 {r}"]
     rn = channels
     ops.append(f"send 0 {rn} {rn + 1}")
     exp = {}
@@ -187,8 +188,9 @@ def wrap_history(ms, act, cmax, loans, answer, probe_first):
         exp[len(ops)] = "false"; ops.append("aconnected 0 0")
     exp[len(ops)] = "ok"; ops.append("dactive 0 0")
     exp[len(ops)] = "true"; ops.append(f"connected 0 {rn}")
-    ops += [f"recvreq 0 {rn}", f"respond 0 {rn} 200"]
-    exp[len(ops)] = "some:0:200"; ops.append(f"recvresp 0 {rn}")
+    if drain:
+        ops += [f"recvreq 0 {rn}", f"respond 0 {rn} 200"]
+        exp[len(ops)] = "some:0:200"; ops.append(f"recvresp 0 {rn}")
     return ops, exp
 
 
